@@ -218,7 +218,12 @@ class AsyncProxy(BaseProxy):
             ev["ext"] = True
             ev["w"] = ctx.ticks()
         try:
-            r = await getattr(self.remote, name)(arg)
+            if name == "set_event":
+                ctx.in_set_event = arg  # (a warning logged while this call is processed belongs to it, whatever its wording)
+            try:
+                r = await getattr(self.remote, name)(arg)
+            finally:
+                ctx.in_set_event = None
             if name == "get_data":
                 ev["val"] = _enc_cb("get_data_result", r)
         except ScenarioError:
@@ -464,11 +469,23 @@ CATS = [
 ]
 
 
-def categorize(outcome) -> str:
+def categorize(outcome, scn=None) -> str:
+    """What kind of end a run took.  The wording of mosaik's messages is not part of any property, so the three categories the
+    reference semantics reads are recognised by the exception TYPE first (a reworded message must not look like a failure):
+    cycle = run() raised ScenarioError, too_slow = RuntimeError of a strict real-time run, loop_guard = SimulationError that
+    talks about loops / sub-steps / iterations; the current wording is the fallback."""
     if outcome["r"] in ("ok", "deadlock", "livelock"):
         return outcome["r"]
+    msg = outcome["msg"]
+    low = msg.lower()
+    if outcome["r"] == "ScenarioError" and outcome.get("phase", "run") == "run":
+        return "cycle"
+    if outcome["r"] == "RuntimeError" and ((scn or {}).get("rt") or {}).get("strict") and ("slow" in low or "behind" in low or "real" in low):
+        return "too_slow"
+    if outcome["r"] == "SimulationError" and any(w in low for w in ("sub-step", "substep", "loop", "iteration")):
+        return "loop_guard"
     for cat, needle in CATS:
-        if needle in outcome["msg"]:
+        if needle in msg:
             return cat
     return "other"
 
@@ -559,7 +576,13 @@ def execute(scn: dict, behaviour, policy, run_kw=None, world_kw=None, connect_or
 
             def sink(message):
                 text = message.record["message"]
-                cat = "too_slow" if "too slow" in text else "event_after_end" if "is after simulation end" in text else "other"
+                low = text.lower()
+                pending_event = getattr(ctx, "in_set_event", None)
+                if isinstance(pending_event, int) and pending_event >= scn["until"]:
+                    low = "ignored " + low  # the warning about an event at or after the end, recognised by its context
+                cat = ("too_slow" if "too slow" in low or ("slow" in low and "real" in low) or "behind time" in low
+                       else "event_after_end" if ("after" in low and ("end" in low or "until" in low)) or "ignored" in low or "will be ignored" in low
+                       else "other")
                 ev = {"k": "LOG", "cat": cat, "w": ctx.ticks() if ctx.rt is not None else 0}
                 if cat == "too_slow":
                     # how far behind, in ticks of 1/1024 s (0 = only the strictly increasing clock reads), from the message's own arguments
@@ -606,7 +629,7 @@ def execute(scn: dict, behaviour, policy, run_kw=None, world_kw=None, connect_or
         except Exception as e:  # noqa: BLE001  the graph is an optional observation
             ctx.eg_error = repr(e)
     pend = getattr(loop, "pending_at_close", None)
-    ev = {"k": "END", "r": ctx.outcome["r"], "cat": categorize(ctx.outcome), "names": named_sims(scn, ctx.outcome["msg"]),
+    ev = {"k": "END", "r": ctx.outcome["r"], "cat": categorize(ctx.outcome, scn), "names": named_sims(scn, ctx.outcome["msg"]),
           "closed": bool(ctx.loop_closed), "pend": len(pend or []) if ctx.loop_closed else getattr(ctx, "pending_tasks", 0),
           "pendnames": sorted(set(n.split("-")[0] for n in (pend or []))),
           "msg": ctx.outcome["msg"][:200], "nstops": sum(1 for e in ctx.trace if e["k"] == "STOP")}
